@@ -236,6 +236,13 @@ func (fc *FnCtx) callAsserts(name string, ord int, before bool, args []Val, res 
 
 // uncontracted models a call with no contract.
 func (fc *FnCtx) uncontracted(name string, fn *ssa.Function, args []Val, resT types.Type, st *State, g *smt.Term, where string) Val {
+	for _, a := range args {
+		if a.GoT != nil && kindOf(a.GoT) == KStrList && !isPureExternal(name) {
+			// []string is modelled as an immutable value; a callee that may reorder or overwrite
+			// its elements in place (sort.Strings) cannot be modelled by havocking the heap
+			fc.refuse("a []string is passed to %s, which has no contract: in-place mutation of string slices is outside the value model", name)
+		}
+	}
 	_, ours := fc.P.Funcs[name]
 	if fn != nil {
 		_, ours = fc.P.FuncPkg[fn]
